@@ -55,6 +55,10 @@ type c21Cp struct {
 	B      int   `json:"b"`
 	Status uint8 `json:"status"` // state.CheckpointStatus 0..3
 	Votes  int   `json:"votes"`  // size of the Votes / Rewards maps 0..2
+	// Live: the saved object is one the caller keeps using, as the finality engine's tree nodes are:
+	// bit 0: it carries links and a parent pointer (fields that are not part of the record);
+	// bit 1: the caller changes it after the save (status, votes, timestamp) without saving again.
+	Live int `json:"live,omitempty"`
 }
 
 type c21Utxo struct {
@@ -127,7 +131,11 @@ func c21GenOp(t *rapid.T) c21Op {
 		}), 0, 2).Draw(t, "contracts")
 	case "savecheckpoints":
 		op.Cps = rapid.SliceOfN(rapid.Custom(func(t *rapid.T) c21Cp {
-			return c21Cp{B: uni(t, 6, "cb"), Status: uint8(rapid.IntRange(0, 3).Draw(t, "cstatus")), Votes: rapid.IntRange(0, 2).Draw(t, "cvotes")}
+			cp := c21Cp{B: uni(t, 6, "cb"), Status: uint8(rapid.IntRange(0, 3).Draw(t, "cstatus")), Votes: rapid.IntRange(0, 2).Draw(t, "cvotes")}
+			if rapid.IntRange(0, 2).Draw(t, "cliveq") == 0 {
+				cp.Live = rapid.IntRange(1, 3).Draw(t, "clive")
+			}
+			return cp
 		}), 1, 3).Draw(t, "cps")
 	case "getutxo", "getcontract":
 		op.B = rapid.IntRange(0, 7).Draw(t, "id")
@@ -646,8 +654,29 @@ func c21Exec(c c21Case, x *pbt.Ctx) error {
 				cpSaved[cb] = true
 				addOnce(&cpOrder, cb)
 			}
+			for k, cp := range op.Cps {
+				if cp.Live&1 != 0 {
+					cps[k].SupLinks = c21SupLinks(1 + k)
+					cps[k].Parent = &state.Checkpoint{Height: 7}
+				}
+			}
 			if err := store.SaveCheckpoints(cps); err != nil {
 				return fmt.Errorf("op %d SaveCheckpoints: unexpected error %v", i, err)
+			}
+			for k, cp := range op.Cps {
+				if cp.Live&2 != 0 {
+					cps[k].Status = state.CheckpointStatus((int(cps[k].Status) + 1) % 4)
+					cps[k].Votes["late"] = 1
+					cps[k].Timestamp++
+				}
+				if cp.Live != 0 {
+					x.Class("savecheckpoints:object-kept-in-use-by-the-caller")
+					rop := c21Op{Op: "getcheckpoint", B: cp.B}
+					if got, fresh := c21Read(store, w, rop), c21Read(database.NewStore(db), w, rop); got != fresh {
+						return fmt.Errorf("op %d SaveCheckpoints of an object the caller keeps using (live=%d): afterwards GetCheckpoint on the long-lived store and on a fresh store over the same DB disagree\n  long-lived: %s\n  fresh:      %s\n  history:\n    %s",
+							i, cp.Live, got, fresh, trace(i))
+					}
+				}
 			}
 		default: // a getter
 			x.Class("op:" + op.Op)
